@@ -52,7 +52,7 @@ def const_expr(s):
     s = s.strip()
     if not re.fullmatch(r"[0-9a-fA-Fxb_ \t<*+\-()/usize]+", s):
         raise GenError("unsupported constant expression: %r" % s)
-    toks = re.findall(r"0x[0-9a-fA-F_]+|0b[01_]+|[0-9][0-9_]*(?:usize|u128|u64|u32|u8)?|<<|[*+\-()/]", s)
+    toks = re.findall(r"0x[0-9a-fA-F_]+?(?:_?(?:usize|u128|u64|u32|u16|u8))?(?![0-9a-fA-F_])|0b[01_]+(?:usize|u128|u64|u32|u16|u8)?|[0-9][0-9_]*(?:usize|u128|u64|u32|u16|u8)?|<<|[*+\-()/]", s)
     py = "".join(str(intlit(t)) if t[0].isdigit() else ("//" if t == "/" else t) for t in toks)
     return int(eval(py, {"__builtins__": {}}))
 
@@ -101,6 +101,18 @@ site("SELECT_NUM_SAMPLES", RSP, r"impl<const B_SIZE: usize> RSSupportPlain<B_SIZ
 site("MAX_LEN", RSP, r"fn new\(qv: &QVector\) -> Self", r"assert!\(qv\.len\(\) < \(([^)]*)\)\);")
 site("RANK_BLOCK_MASK", RSP, r"fn rank_block\(&self, symbol: u8, i: usize\)", r"\.get_rank\(symbol, block_index & (\w+)\)")
 
+# ---- utils/mod.rs ---------------------------------------------------------------------
+UT = "src/utils/mod.rs"
+site("K_ONES_STEP4", UT, r"pub fn select_in_word\(word: u64, k: u64\)", r"let k_ones_step4 = (\w+);")
+site("K_ONES_STEP8", UT, r"pub fn select_in_word\(word: u64, k: u64\)", r"let k_ones_step8 = (\w+);")
+site("K_LAMBDAS_STEP8", UT, r"pub fn select_in_word\(word: u64, k: u64\)", r"let k_lambdas_step8 = (\w+);")
+site("SIW_M1", UT, r"pub fn select_in_word\(word: u64, k: u64\)", r"s = s - \(\(s & \((\w+) \* k_ones_step4\)\) >> 1\);")
+site("SIW_M2", UT, r"pub fn select_in_word\(word: u64, k: u64\)", r"s = \(s & \((\w+) \* k_ones_step4\)\) \+ \(\(s >> 2\) & \(0x3 \* k_ones_step4\)\);")
+site("SIW_M3", UT, r"pub fn select_in_word\(word: u64, k: u64\)", r"s = \(s \+ \(s >> 4\)\) & \((\w+) \* k_ones_step8\);")
+site("SIW_PLACE_MUL", UT, r"pub fn select_in_word\(word: u64, k: u64\)", r"let place = geq_k_step8\.count_ones\(\) \* (\w+);")
+site("SIW_NOTFOUND", UT, r"pub fn select_in_word\(word: u64, k: u64\)", r"if place == (\w+) \{")
+site("SIW_BYTE_MASK", UT, r"pub fn select_in_word\(word: u64, k: u64\)", r"let byte_rank = k - \(\(\(byte_sums << 8\) >> place\) & (\w+)\);")
+
 
 def gen_consts():
     out = ["(* GENERATED by tools/gen_from_src.py from /repo sources. Do not edit. *)",
@@ -127,6 +139,28 @@ Definition LINE_SYMS_nat : nat := N.to_nat LINE_SYMS.
 """
 
 
+def gen_seltable():
+    src = read("src/utils/mod.rs")
+    m = re.search(r"const K_SELECT_IN_BYTE: \[u8; (\d+)\] = \[(.*?)\];", src, flags=re.S)
+    if not m:
+        raise GenError("K_SELECT_IN_BYTE not found")
+    n = int(m.group(1))
+    body = re.sub(r"//.*", "", m.group(2))
+    vals = [intlit(x) for x in re.findall(r"[0-9][0-9a-fA-Fx_]*", body)]
+    if len(vals) != n:
+        raise GenError("K_SELECT_IN_BYTE: %d entries found, %d declared" % (len(vals), n))
+    out = ["(* GENERATED by tools/gen_from_src.py from src/utils/mod.rs (K_SELECT_IN_BYTE). Do not edit. *)",
+           "From Coq Require Import NArith List.", "Import ListNotations.", "Open Scope N_scope.", "",
+           "Definition sel_table : list N := ["]
+    rows = []
+    for i in range(0, n, 32):
+        rows.append("  " + "; ".join(str(v) for v in vals[i:i + 32]))
+    out.append(";\n".join(rows))
+    out.append("].")
+    out.append("")
+    return "\n".join(out)
+
+
 def write_if_changed(path, content):
     old = None
     if os.path.exists(path):
@@ -148,6 +182,13 @@ def main():
         return 2
     ch = write_if_changed(os.path.join(OUT, "Consts.v"), consts)
     print("gen: Consts.v %s" % ("rewritten" if ch else "unchanged"))
+    try:
+        tab = gen_seltable()
+    except GenError as e:
+        print("GEN-ERROR %s" % e)
+        return 2
+    ch = write_if_changed(os.path.join(OUT, "SelTable.v"), tab)
+    print("gen: SelTable.v %s" % ("rewritten" if ch else "unchanged"))
     return 0
 
 
